@@ -6,6 +6,7 @@ import LfsModel.Gen
 import LfsModel.TQRetry
 import LfsModel.TQTraceProofs
 import LfsModel.Backoff
+import LfsModel.Expiry
 
 namespace C15
 open TQ
@@ -111,5 +112,33 @@ example : ∃ s, run { cap := 2, batchSize := 1, maxRetries := 1 }
     [.add 3, .collTake 3, .batchStart [3], .reply 3 .action, .jobResult 3 .retriable, .batchEnd 3,
      .batchStart [3], .reply 3 .action, .jobResult 3 .retriable] = some s ∧ s.st 3 = .term .errored ∧ s.rc 3 = 1 := by
   refine ⟨_, rfl, ?_, ?_⟩ <;> decide
+
+/-! ### when an offered action may still be used (the arithmetic behind the abstract `.expiredAction` reply) -/
+
+/-- an action the code hands out has not expired — nor will it within the safety margin -/
+theorem handed_out_action_not_expired (a : Expiry.Action) (now margin : Int) (hm : 0 ≤ margin)
+    (h : Expiry.usable a now margin = true) :
+    ∀ e, Expiry.expiration a = some e → now ≤ e ∧ now + margin ≤ e :=
+  fun e he => ⟨Expiry.usable_not_expired a now margin hm h e he, Expiry.usable_margin a now margin h e he⟩
+
+/-- `expires_in`, counted from the client's own request time, decides whenever it is given; an
+    `expires_at` beside it (on the server's clock) changes nothing -/
+theorem expires_in_decides (createdAt inS : Int) (at1 at2 : Option Int) (h : inS ≠ 0) (now margin : Int) :
+    Expiry.usable ⟨createdAt, at1, inS⟩ now margin = Expiry.usable ⟨createdAt, at2, inS⟩ now margin := by
+  simp [Expiry.usable, Expiry.expiredWithin, Expiry.expiration, h]
+
+/-- waiting never makes an expired action usable again: a check at the moment of use is at least as
+    strict as the check when the answer arrived -/
+theorem check_at_use_is_stricter (a : Expiry.Action) (t0 t1 margin : Int) (hle : t0 ≤ t1)
+    (h : Expiry.usable a t1 margin = true) : Expiry.usable a t0 margin = true := by
+  cases h0 : Expiry.expiredWithin a t0 margin with
+  | false => simp [Expiry.usable, h0]
+  | true =>
+    have := Expiry.expired_stays_expired a t0 t1 margin hle h0
+    simp [Expiry.usable, this] at h
+
+/-- non-vacuity: expires_in 6 s, asked 2.3 s and 6.6 s after the request, margin 5 s -/
+example : Expiry.usable ⟨0, none, 6⟩ 500 5000 = true ∧ Expiry.usable ⟨0, none, 6⟩ 2300 5000 = false ∧
+    Expiry.usable ⟨0, some 3600000, 6⟩ 6600 0 = false := by decide
 
 end C15
